@@ -49,7 +49,7 @@ type Fault struct {
 //	dup-header  the request header named Arg is duplicated in flight
 //	drop-query  the query parameter named Arg is removed in flight
 //	mangle      an intermediary rewrites one piece of the request head: Arg says which ("query:name", "header:Name",
-//	            "cookie:name", "path:i" = i-th path segment, or by position "query#i", "header#i", "cookie#i"), Val is
+//	            "cookie:name", "path:i" = i-th path segment, "path:glue" = the slash behind the mount prefix Val is lost, or by position "query#i", "header#i", "cookie#i"), Val is
 //	            the new text (for query and path: as it goes on the wire, i.e. already escaped - or deliberately not)
 //	lie-length  the request head declares a Content-Length of Arg (absurdly large) although the body is as short as it
 //	            is; the connection breaks after the last body byte (an oversized declared size)
@@ -552,6 +552,15 @@ func mangle(req *http.Request, target, val string) bool {
 		req.URL.RawQuery = strings.Join(pairs, "&")
 		return true
 	case "path":
+		if sel == "glue" {
+			// the slash behind the mount prefix (Val) is lost: "/api/pets" becomes "/apipets", which is outside the mount
+			raw := req.URL.EscapedPath()
+			if val == "" || !strings.HasPrefix(raw, val+"/") || len(raw) < len(val)+2 {
+				return false
+			}
+			req.URL.Opaque = "//" + req.URL.Host + val + raw[len(val)+1:]
+			return true
+		}
 		n, err := strconv.Atoi(sel)
 		if err != nil {
 			return false
